@@ -18,6 +18,12 @@ CLAIMED = {
  "C20": ("c20", "Rocq/Coq proof + translator: (a) theorem race_free_b_sound — if the boolean checker accepts a parallel region summary then in every schedule (any assignment of iterations to T>=1 threads, any interleaving under one global lock) no two threads have overlapping unprotected accesses with a write and no thread-indexed array is overrun; two copies of the loop body suffice for every iteration count; (b) merge_schedule_independent — thread-local partial results merged inside the critical section in any order equal the sequential fold in a commutative monoid; (c) thread_ranges_tile — the static work split of ErrorFunction.inl covers every batch exactly once for every thread count; all axiom-free. Tie: tools/translate_omp.py regenerates the region summaries of all 22 SHARK_PARALLEL_FOR regions of the anchored files (+7 variants with a stochastic model) from /repo's current source via the clang JSON AST on every run and Coq re-decides race_free_b region_k = true for each; a coverage obligation checks that every textual SHARK_PARALLEL_FOR is instantiated. Runtime monitors (results for 1/2/3/7/16 threads and schedule(runtime) variants, TSan build in the thorough tier) turn a failed region obligation into a concrete witness.",
          "Trusted: Coq kernel, the translator's reading of the clang AST and its hand-kept table for plugged-in components (const method with external State = read-only; random::globalRng = shared write), clang 14. Modelled not verified: the C++/OpenMP memory model and runtime, boost::shared_ptr reference counting (monitored only). Known finding C20-F7 (global RNG inside parallel regions) is listed in known_findings.json.",
          "Coq proof (soundness of a race checker over all schedules; permutation-invariance of merges) + source-to-model translator re-run on every check"),
+ "C13": ("c13", "Rocq/Coq proof over Z (axiom-free): the coded four-valued dominance relation equals the component-wise definition and is a strict partial order; the rank equation (1 + max rank of dominators) has exactly one solution and the executable rank list satisfies it; fronts are consistent; the hypervolume spec (unit-cell slicing, all dimensions) is invariant under permutation and under adding dominated or duplicate points and is monotone; the 2-D sort-and-sweep with dominated-point skipping equals the spec for every tie order. Tie: extracted model vs. /repo on integer point sets (2-5 objectives, ties, duplicates, dominated and collinear points): ranks from the dispatcher, FastNonDominatedSort and DCNonDominatedSort; hypervolume from the dispatcher, 2D, 3D, HOY and WFG (exact equality); least/greatest contributors with reference point vs hv(S)-hv(S\\p) from the spec; 2-D subset selection vs brute force; a separate stream for the overloads without reference point. fast_nds = rank_list, DC sort, 3-D sweep, HOY, WFG, 3-D/MD contributions and subset selection are compared exactly but not proved (partial).",
+         "Trusted: Coq kernel, extraction, OCaml driver, harness, generators, an independent slab-form hypervolume in the Python monitor. MD contributions use exp(sum(log)) and are compared at 1e-9 relative.",
+         "Coq proof (order theory of dominance, uniqueness of ranks, HSO-style hypervolume spec, 2-D sweep correctness) + exact differential correspondence"),
+ "C17": ("c17", "Rocq/Coq proof over Z (axiom-free): the kd cell lower bound is below the squared distance to every point of the cell; one step of the incremental query preserves the invariant (every point not yet queued is at squared distance >= radius, every queued leaf's key is its true distance) and returns a pending point of minimal true distance; hence for every well-formed tree with single-point leaves and every k <= n the query returns k distinct indices with their true distances in non-decreasing order and no unreported point is closer. The tree actually built by /repo is read back on every run and checked with the extracted, proved-sound well-formedness test; the query is compared step by step (results, queue size, radius) with the extracted model on integer point sets with duplicates, collinear points and points on splitting planes; LC/KHC trees, bucket size > 1 and NearestNeighborModel (tree vs brute force back-end) are checked against exhaustive search only. kd construction well-formedness is checked per tree, not proved (partial).",
+         "Trusted: Coq kernel, extraction, OCaml driver, harness (reads private tree fields via #define private public), generators. Known finding C17-F4 (bucket size > 1) is listed in known_findings.json.",
+         "Coq proof (query invariant, k-smallest theorem over all well-formed trees) + per-run well-formedness check of the real tree + step correspondence"),
 }
 
 REASONS_TODO = "not claimed yet in this revision: the Coq model and its correspondence check for this property are still being built (see DESIGN.md section 3); no check is registered so nothing is asserted about it"
